@@ -7,6 +7,7 @@ import tempfile
 
 import numpy as np
 
+SEED_FORMS = ["cpu_kw", "gpu_true", "positional", "defaults"]
 READ_ONLY = {"sample", "sample_cont", "statistics", "apply", "metrics", "rotate", "gradient", "save", "psi"}
 
 
@@ -14,7 +15,8 @@ def make_spec(rng, hid, seed_value):
     kind = ["positive", "complex", "mixed"][hid % 3]
     nv = int(rng.integers(3, 5))
     ops = ["construct"]
-    pool = ["reinit", "sample", "sample_cont", "statistics", "apply", "metrics", "rotate", "gradient", "save", "fit", "psi", "fit"]
+    pool = ["reinit", "sample", "sample_cont", "statistics", "apply", "metrics", "rotate", "gradient", "save", "fit", "psi", "fit",
+            "setparams"]
     n = int(rng.integers(5, 10))
     for _ in range(n):
         ops.append(pool[int(rng.integers(0, len(pool)))])
@@ -23,7 +25,7 @@ def make_spec(rng, hid, seed_value):
     if "fit" not in ops:
         ops.append("fit")
     return {"hid": hid, "kind": kind, "nv": nv, "nh": int(rng.integers(2, 4)), "na": int(rng.integers(1, 3)),
-            "seed": int(seed_value), "ops": ops,
+            "seed": int(seed_value), "ops": ops, "seed_form": SEED_FORMS[hid % len(SEED_FORMS)],
             "fit": {"N": int(rng.integers(4, 12)), "pos": int(rng.integers(2, 6)), "neg": [None, 2, 5][int(rng.integers(0, 3))],
                     "k": int(rng.integers(0, 3)), "epochs": int(rng.integers(1, 3)), "lr": float(rng.choice([0.01, 0.1]))},
             "data_seed": int(rng.integers(0, 2 ** 31 - 1))}
@@ -57,7 +59,19 @@ def run_history(spec, perturb=None, hooks=None):
     tz = tz / np.linalg.norm(tz)
     st = None
     last_samples = None
-    qucumber.set_random_seed(spec["seed"], cpu=True, gpu=False, quiet=True)
+    import warnings as _w
+
+    with _w.catch_warnings():
+        _w.simplefilter("ignore")
+        form = spec.get("seed_form", "cpu_kw")
+        if form == "cpu_kw":
+            qucumber.set_random_seed(spec["seed"], cpu=True, gpu=False, quiet=True)
+        elif form == "gpu_true":  # also asking for GPU seeding must still seed the CPU generator
+            qucumber.set_random_seed(spec["seed"], cpu=True, gpu=True, quiet=True)
+        elif form == "positional":
+            qucumber.set_random_seed(spec["seed"], True, True, True)
+        else:
+            qucumber.set_random_seed(spec["seed"])
     for i, op in enumerate(spec["ops"]):
         if perturb is not None:
             perturb(i)
@@ -73,6 +87,12 @@ def run_history(spec, perturb=None, hooks=None):
             d = params_digest(st)
         elif op == "reinit":
             st.reinitialize_parameters()
+            d = params_digest(st)
+        elif op == "setparams":
+            # every named parameter (incl. the phase network's auxiliary bias) set by hand / as from a checkpoint
+            for net in st.networks:
+                for _, p_ in getattr(st, net).named_parameters():
+                    p_.data.copy_(torch.tensor(drng.uniform(0.2, 1.0, size=tuple(p_.shape)) * drng.choice([-1.0, 1.0], size=tuple(p_.shape))))
             d = params_digest(st)
         elif op == "sample":
             last_samples = st.sample(3, num_samples=64)
